@@ -20,6 +20,41 @@ for c, f in FILES.items():
             classes[c] = {m.name: m for m in n.body if isinstance(m, ast.FunctionDef)}
             bases[c] = [b.id for b in n.bases if isinstance(b, ast.Name) and b.id in FILES]
 
+class_level = {}
+for c, f in FILES.items():
+    t = ast.parse(open(f"{SRC}/{f}").read())
+    for n in t.body:
+        if isinstance(n, ast.ClassDef) and n.name == c:
+            class_level[c] = {x.id for st in n.body if isinstance(st, (ast.Assign, ast.AnnAssign)) for tg in (st.targets if isinstance(st, ast.Assign) else [st.target]) for x in ast.walk(tg) if isinstance(x, ast.Name)}
+def class_attrs(c): return set().union(*[class_level.get(k, set()) for k in mro(c)])
+DYNAMIC = ("getattr", "setattr", "delattr", "vars")
+def dynamic_access(fn):
+    """reason if the function touches attributes of self in a way a syntactic read/write analysis cannot follow (getattr/setattr with computed names, __dict__)"""
+    for n in ast.walk(fn):
+        if isinstance(n, ast.Call) and isinstance(n.func, ast.Name) and n.func.id in DYNAMIC:
+            if len(n.args) >= 2 and isinstance(n.args[1], ast.Constant) and isinstance(n.args[1].value, str) and n.func.id in ("getattr", "setattr"): continue     # constant name: handled as a plain read / write
+            return f"{fn.name} uses {n.func.id}() with a computed attribute name"
+        if isinstance(n, ast.Attribute) and n.attr in ("__dict__", "__setattr__", "__getattribute__"): return f"{fn.name} touches {n.attr}"
+    return None
+def not_analysable(cls, entries):
+    """reason why the syntactic frame analysis does not apply to this class (-> undecided, the run-time harness decides), or None"""
+    for e in entries:
+        _, _, seen = analyse(cls, e)
+        for (owner, fname) in seen:
+            why = dynamic_access(classes[owner][fname])
+            if why: return f"{owner}.{why}"
+    k, m = lookup(cls, "solver_state")
+    rets = [n for n in ast.walk(m) if isinstance(n, ast.Return)]
+    def literal(call):
+        if not isinstance(call, ast.Call) or call.args or any(kw.arg is None for kw in call.keywords): return False
+        return all(literal(kw.value) if isinstance(kw.value, ast.Call) else True for kw in call.keywords)
+    if len(rets) != 1 or not literal(rets[0].value) or len(m.body) > 2: return f"{k}.solver_state is not a single literal constructor expression"
+    k, m = lookup(cls, "_restore_state_from_checkpoint")
+    for st in m.body:
+        if isinstance(st, ast.Expr) and isinstance(st.value, ast.Constant): continue       # docstring
+        if not (isinstance(st, ast.Assign) and len(st.targets) == 1 and is_self_attr(st.targets[0])): return f"{k}._restore_state_from_checkpoint is not a sequence of plain attribute assignments"
+    return None
+
 def mro(c):
     out = [c]
     for b in bases[c]:
@@ -45,6 +80,9 @@ def analyse(cls, entry, skip=()):
                 k, m = lookup(cls, n.attr)
                 if m is not None and not isinstance(n.ctx, ast.Store): visit(k, m); continue
                 (writes if isinstance(n.ctx, ast.Store) else reads).add(n.attr)
+            if isinstance(n, ast.Call) and isinstance(n.func, ast.Name) and n.func.id in ("getattr", "setattr") and len(n.args) >= 2 and isinstance(n.args[0], ast.Name) and n.args[0].id == "self" \
+                    and isinstance(n.args[1], ast.Constant) and isinstance(n.args[1].value, str):
+                (writes if n.func.id == "setattr" else reads).add(n.args[1].value)
             if isinstance(n, ast.Subscript) and isinstance(n.ctx, ast.Store) and is_self_attr(n.value): writes.add(n.value.attr)      # in-place store self.x[...] = ...
             if isinstance(n, ast.AugAssign) and is_self_attr(n.target): reads.add(n.target.attr); writes.add(n.target.attr)
             if isinstance(n, ast.Call) and isinstance(n.func, ast.Attribute) and isinstance(n.func.value, ast.Call) and isinstance(n.func.value.func, ast.Name) and n.func.value.func.id == "super":
@@ -79,16 +117,29 @@ results = []
 def ob(name, ok, detail="", path="static"):
     results.append({"name": name, "path": path, "status": "proved" if ok else "refuted", "backend": "frame-analysis(AST)", "secs": 0.0, "lemmas": 0, "detail": detail,
                     "model": None if ok else {"detail": detail}, "canary": False, "guard": False, "known_finding": None, "smt2": None, "meta": {}})
+def undecided(name, why):
+    results.append({"name": name, "path": "static", "status": "unknown", "backend": "frame-analysis(AST)", "secs": 0.0, "lemmas": 0, "detail": "NEEDS-CONTRACT: " + why, "model": None, "canary": False, "guard": False,
+                    "known_finding": None, "smt2": None, "meta": {"needs_contract": True}})
+NAMES = ["solve.frame.carried_state_is_saved", "solve.frame.everything_else_read_is_fixed_by_construction", "_restore_state_from_checkpoint.assigns_every_saved_field_to_its_own_attribute",
+         "_restore_state_from_checkpoint.assigns_nothing_else", "solver_state.pure", "save.frame.writes_no_solver_attribute", "load_checkpoint.frame.writes_only_restored_fields",
+         "restore.post.template_covers_saved", "restore.post.template_covers_carried_state"]
 t0 = time.time(); funcs = []
 for cls in SOLVERS:
     mod = "mdpax." + FILES[cls][:-3].replace("/", ".") + "." + cls
+    try: why = not_analysable(cls, ["solve", "solver_state", "_restore_state_from_checkpoint", "save", "load_checkpoint"])
+    except Exception as ex: why = f"frame analysis could not read the class ({type(ex).__name__}: {ex})"
+    if why:
+        # the code is outside the shape this syntactic analysis understands (generic / table-driven state handling): UNDECIDED, never a violation
+        for nm in NAMES: undecided(f"{mod}.{nm}", "the syntactic frame analysis does not apply: " + why)
+        continue
     r, w, seen = analyse(cls, "solve"); carried = r & w
     ri, wi, _ = analyse(cls, "__init__")
     paths = state_paths(cls); saved = {a for a in paths.values() if a}; rmap = restore_map(cls)
     ob(f"{mod}.solve.frame.carried_state_is_saved", not (carried - saved - ALLOWED_UNSAVED.get(cls, set())),
        f"carried={sorted(carried)} saved={sorted(saved)} not saved: {sorted(carried - saved - ALLOWED_UNSAVED.get(cls, set()))}")
-    ob(f"{mod}.solve.frame.everything_else_read_is_fixed_by_construction", not ((r - carried) - wi - {"checkpoint_dir"}),
-       f"read by solve, never written by solve, not written by __init__: {sorted((r - carried) - wi)}")
+    ca = class_attrs(cls)              # class-level attributes (tables, type references) are fixed by construction too
+    ob(f"{mod}.solve.frame.everything_else_read_is_fixed_by_construction", not ((r - carried) - wi - ca - {"checkpoint_dir"}),
+       f"read by solve, never written by solve, not written by __init__: {sorted((r - carried) - wi - ca)}")
     ob(f"{mod}._restore_state_from_checkpoint.assigns_every_saved_field_to_its_own_attribute",
        all(rmap.get(attr) == path for path, attr in paths.items() if attr), f"solver_state paths {paths} restore map {rmap}")
     ob(f"{mod}._restore_state_from_checkpoint.assigns_nothing_else", set(rmap) <= saved, f"extra: {sorted(set(rmap) - saved)}")
